@@ -26,9 +26,9 @@
 //
 // SEMANTICS (one line per construct; [[e]] is the value of e in the current variable environment)
 //   integer literal n            : the integer n.          ∅ : {}.         Z : FAIL/F_INTSET (infinite)
-//   precondition                 : every global / function named in the expression or (transitively)
-//                                  in a called function's definition is in DataEnv, used or not;
-//                                  otherwise FAIL/F_MISSING (no interpretation to evaluate under).
+//   precondition                 : every global that remains after replacing calls by bodies with
+//                                  arguments substituted has a value in DataEnv, evaluated or not;
+//                                  a called function has a definition; else FAIL/F_MISSING.
 //   global X                     : its value in DataEnv.   local x : value bound by nearest binder,
 //                                  or, for a function parameter, [[argument expression]] in the
 //                                  caller's environment (substitution = call by name).
@@ -166,39 +166,68 @@ public:
       }
       root = root.Child(1);
     }
-    if (!NamesDefined(root, 0)) {
+    if (!NamesDefined(root, nullptr, 0)) {
       return Fail(F_MISSING);
     }
     return Ev(root, nullptr);
   }
 
-  //! Interpretability precondition: every global mentioned by the expression, and by the bodies of
-  //  the functions it calls, has a value (wherever it occurs, evaluated or not).
-  bool NamesDefined(Cursor it, uint32_t depth) const {
+  //! Interpretability precondition: every global that occurs in the expression once calls are
+  //  replaced by bodies with arguments substituted for parameters has a value -- wherever it
+  //  occurs, evaluated or not (an argument whose parameter is not used by the body disappears).
+  //  `params`: frame with the thunks of the enclosing function call (nullptr at top level).
+  bool NamesDefined(Cursor it, const Frame* params, uint32_t depth) const {
     if (it->id == TokenID::ID_GLOBAL || it->id == TokenID::ID_FUNCTION || it->id == TokenID::ID_PREDICATE) {
       return it->data.IsText() && FindGlobal(it->data.ToText()) != nullptr;
     }
-    Index first = 0;
-    if (it->id == TokenID::NT_FUNC_CALL && it.ChildrenCount() >= 1 && it(0).data.IsText()) {
+    if (it->id == TokenID::ID_LOCAL && params != nullptr && it->data.IsText()) {
+      for (const auto& t : params->thunks) {
+        if (t.name == it->data.ToText()) {
+          return NamesDefined(t.expr, t.env, depth);
+        }
+      }
+      return true;
+    }
+    if (it->id == TokenID::NT_FUNC_CALL && it.ChildrenCount() >= 2 && it(0).data.IsText()) {
       const SyntaxTree* tree = FindFunction(it(0).data.ToText());
       if (tree == nullptr || depth >= MAX_CALL_DEPTH) {
         return false;
       }
-      Cursor def = tree->Root();
-      if (def->id == TokenID::PUNC_DEFINE && def.ChildrenCount() == 2) {
-        def = def.Child(1);
+      Frame f{ nullptr };
+      Cursor body = tree->Root();
+      if (!BindParameters(it, params, *tree, f, body)) {
+        return true;  // malformed definition: reported by Call
       }
-      if (def->id == TokenID::NT_FUNC_DEFINITION && def.ChildrenCount() == 2
-          && !NamesDefined(def.Child(1), depth + 1)) {  // the body; parameter domains are types only
-        return false;
-      }
-      first = 1;
+      return NamesDefined(body, &f, depth + 1);
     }
-    for (Index i = first; i < it.ChildrenCount(); ++i) {
-      if (!NamesDefined(it.Child(i), depth)) {
+    for (Index i = 0; i < it.ChildrenCount(); ++i) {
+      if (!NamesDefined(it.Child(i), params, depth)) {
         return false;
       }
     }
+    return true;
+  }
+
+  //! Frame f := parameters of the function defined by `tree` bound to the argument expressions of
+  //  `call` (to be evaluated in `callerEnv`); body := the function body. False if malformed.
+  static bool BindParameters(Cursor call, const Frame* callerEnv, const SyntaxTree& tree, Frame& f, Cursor& body) {
+    Cursor def = tree.Root();
+    if (def->id == TokenID::PUNC_DEFINE) {
+      if (def.ChildrenCount() != 2) return false;
+      def = def.Child(1);
+    }
+    if (def->id != TokenID::NT_FUNC_DEFINITION || def.ChildrenCount() != 2) return false;
+    const Cursor params = def.Child(0);
+    if (params->id != TokenID::NT_ARGUMENTS || params.ChildrenCount() != call.ChildrenCount() - 1) return false;
+    for (Index i = 0; i < params.ChildrenCount(); ++i) {
+      const Cursor decl = params.Child(i);
+      if (decl->id != TokenID::NT_ARG_DECL || decl.ChildrenCount() != 2
+          || decl(0).id != TokenID::ID_LOCAL || !decl(0).data.IsText()) {
+        return false;
+      }
+      f.thunks.push_back(Frame::Thunk{ decl(0).data.ToText(), call.Child(static_cast<Index>(i + 1)), callerEnv });
+    }
+    body = def.Child(1);
     return true;
   }
 
@@ -725,28 +754,12 @@ private:
     if (!it(0).data.IsText()) return Fail(F_MALFORMED);
     const SyntaxTree* tree = FindFunction(it(0).data.ToText());
     if (tree == nullptr) return Fail(F_MISSING);
-    Cursor def = tree->Root();
-    if (def->id == TokenID::PUNC_DEFINE) {
-      if (def.ChildrenCount() != 2) return Fail(F_MALFORMED);
-      def = def.Child(1);
-    }
-    if (def->id != TokenID::NT_FUNC_DEFINITION || def.ChildrenCount() != 2) return Fail(F_MALFORMED);
-    const Cursor params = def.Child(0);
-    if (params->id != TokenID::NT_ARGUMENTS || params.ChildrenCount() != it.ChildrenCount() - 1) {
-      return Fail(F_MALFORMED);
-    }
     Frame f{ nullptr };  // the body sees its parameters and the globals only
-    for (Index i = 0; i < params.ChildrenCount(); ++i) {
-      const Cursor decl = params.Child(i);
-      if (decl->id != TokenID::NT_ARG_DECL || decl.ChildrenCount() != 2
-          || decl(0).id != TokenID::ID_LOCAL || !decl(0).data.IsText()) {
-        return Fail(F_MALFORMED);
-      }
-      f.thunks.push_back(Frame::Thunk{ decl(0).data.ToText(), it.Child(static_cast<Index>(i + 1)), fr });
-    }
+    Cursor body = tree->Root();
+    if (!BindParameters(it, fr, *tree, f, body)) return Fail(F_MALFORMED);
     if (callDepth >= MAX_CALL_DEPTH) return Fail(F_LIMIT);
     ++callDepth;
-    R r = Ev(def.Child(1), &f);
+    R r = Ev(body, &f);
     --callDepth;
     return r;
   }
